@@ -1,2 +1,53 @@
--- line-protocol model driver for C15 (stub)
-def main : IO Unit := IO.println "stub C15"
+/- Line-protocol model driver for C15.
+     call <tagName> <operand>*      operand = v:<val> (value in a register) | c:<val> (constant slot)
+                                    <val> = <int> | nil | true | false | T<id> (table with logging operator methods)
+   ->  ops=<JOP_X[:imm]>,...  inline=<outcome>  generic=<outcome>
+       outcome = dead=<canonical value>|<method-call log ;-separated>   or   error=<class>|<log>
+   `ops` is Spec.emitInline (model of opreduce / compreduce), `inline` is Spec.evalInline, `generic` is Spec.evalGeneric
+   (model of the corelib.c templates), all three on the regenerated tables of Gen/Cfuns.lean and the concrete Spec.DP. -/
+import Driver.Util
+import JanetModel.Spec.Emit
+open Driver JanetModel.Spec JanetModel.Gen.Cfuns JanetModel.Gen.Bytecode JanetModel.Bytecode.VM
+
+def dropFirst (s : String) (k : Nat) : String := String.ofList (s.toList.drop k)
+
+def parseVal (t : String) : Option DV :=
+  if t == "nil" then some .nil
+  else if t == "true" then some (.bool true)
+  else if t == "false" then some (.bool false)
+  else if t.startsWith "T" then some (.tab (dropFirst t 1))
+  else t.toInt?.map .int
+
+def immOf (v : DV) : Option Int :=
+  match v with
+  | .int i => if immMin ≤ i ∧ i ≤ immMax then some i else none
+  | _ => none
+
+def parseOperand (t : String) : Option (Arg DP × Operand) :=
+  if t.startsWith "v:" then (parseVal (dropFirst t 2)).map fun v => (⟨v, none⟩, .reg)
+  else if t.startsWith "c:" then (parseVal (dropFirst t 2)).map fun v => (⟨v, immOf v⟩, .const (immOf v))
+  else none
+
+def showOutcome (m : List String → Except String DV × List String) : String :=
+  match m [] with
+  | (.ok v, w) => "dead=" ++ v.canon ++ "|" ++ ";".intercalate w
+  | (.error e, w) => "error=" ++ e ++ "|" ++ ";".intercalate w
+
+def showOps (l : List (Op × Option Int)) : String :=
+  ",".intercalate (l.map fun (o, i) => match i with | some k => o.cName ++ ":" ++ toString k | none => o.cName)
+
+def handle (toks : List String) : String :=
+  match toks with
+  | "call" :: tag :: rest =>
+    match optimizers.find? (fun r => r.tagName == tag), rest.mapM parseOperand with
+    | some r, some ops =>
+      match templateOf r.tag, emitInline r (ops.map (·.2)), evalInline DP r (ops.map (·.1)) with
+      | some t, some e, some mi =>
+        match evalGeneric DP t (ops.map (·.1.v)) with
+        | some mg => "ops=" ++ showOps e ++ " inline=" ++ showOutcome mi ++ " generic=" ++ showOutcome mg
+        | none => "unmodelled-template"
+      | _, _, _ => "unmodelled-row"
+    | _, _ => "bad-request"
+  | _ => "bad-request"
+
+def main : IO Unit := runLoop () (fun s toks => (s, handle toks))
